@@ -410,10 +410,18 @@ func runRC(p *Plan, keep bool, mode string) *Outcome {
 				}
 				break
 			}
+			live := cl.ctx.Err() == nil && (cl.batchCtx == nil || cl.batchCtx.Err() == nil)
 			if !cl.handed {
+				// QueueRPC / QueueBatch has not returned although the world has been
+				// quiet for seconds (or the 20 simulated minutes of the run have
+				// passed): the call is stuck in the hand-over (nobody takes it, and
+				// it is not refused either)
+				if live && reason != "steps" && cl.op.Nonce < 999000 {
+					add("hand-over-blocked", "call nonce=%d (%s, task %d op %d): QueueRPC / QueueBatch has not returned at quiescence (run ended: %s, client failed: %v): the call is neither taken nor refused",
+						cl.op.Nonce, cl.op.Kind, cl.task, cl.idx, reason, failedBefore)
+				}
 				continue
 			}
-			live := cl.ctx.Err() == nil && (cl.batchCtx == nil || cl.batchCtx.Err() == nil)
 			n := len(cl.results)
 			if n > 1 {
 				add("completed-twice", "call nonce=%d (%s) was completed %d times", cl.op.Nonce, cl.op.Kind, n)
